@@ -166,6 +166,9 @@ fn main() {
         i += 1;
     }
     vcommon::drv::install_quiet_panic_hook();
+    if prop.as_deref() == Some("fuzz-selftest") {
+        std::process::exit(vcheck::fuzzdec::selftest());
+    }
 
     if let Some(path) = replay {
         let text = std::fs::read_to_string(&path).unwrap_or_else(|e| usage(&format!("{e}")));
